@@ -46,20 +46,17 @@ Section Raw.
     intros p H. unfold scr0_clear in H. rewrite H. apply N.eqb_neq. intro E. apply (ok_scr0_nz c Hc). symmetry. exact E.
   Qed.
 
-  Theorem fs_in_raw_prerouting : forall n disp,
-    c_wg_raw c = false ->
+  (* everything after the Wireguard jump, from a packet that keeps the invariant and has the scratch bit clear *)
+  Lemma raw_rest_ok : forall n disp q,
     lookup cs CH_FS_IN = Some (failsafe_in TRaw c) ->
     lookup cs CH_FROM_HEP = Some disp -> hep_disp_ok cs CH_FROM_HEP CH_FS_IN = true ->
-    seg_ok cs e (I_in c e) (S (S (S (S n)))) (raw_prerouting c).
+    I_in c e q -> scr0_clear q ->
+    okres (I_in c e) (G cs e (S (S (S (S n))))
+      (vxlan_notrack c ++ raw_mark_wl_rules c ++ [R [MMark false (c_scr0 c) (c_scr0 c)] (AJump CH_RPF_SKIP)] ++ rpf_rules c ++
+       [R [m_clear (c_scr0 c)] (AJump CH_FROM_HEP); R [m_bit_set (c_accept c)] AAccept]) q).
   Proof.
-    intros n disp Hwg Hfs Hd Hshape p Hp.
+    intros n disp p1 Hfs Hd Hshape Hp1 Hs.
     set (N4 := S (S (S (S n)))).
-    set (p1 := set_mark p (apply_mark (lnot32 (all_bits c)) 0 (pk_mark p))).
-    assert (Hp1 : I_in c e p1) by (apply (I_in_mark c e Hlocal), Hp).
-    assert (Hs : scr0_clear p1) by (unfold scr0_clear, p1; cbn [pk_mark set_mark]; apply cleared_no_scr0).
-    unfold raw_prerouting. rewrite Hwg. cbn [opt_rules].
-    rewrite (G_app_fall _ _ _ _ p1) by reflexivity.
-    rewrite (G_app_fall _ _ _ _ p1) by reflexivity.
     rewrite (G_app_fall _ _ _ _ p1).
     2:{ apply go_passes. intros r Hr. unfold vxlan_notrack in Hr. destruct (vxlan_here c); [|destruct Hr].
         destruct Hr as [<-|[]]. right. right; right; right; reflexivity. }
@@ -89,5 +86,60 @@ Section Raw.
       - intros q (H1 & H2 & _). apply failsafe_in_accepts; assumption.
       - apply I_in_ct. }
     exact (Htail p1 Hp1).
+  Qed.
+
+  (* the Wireguard incoming-mark chain only RETURNs or sets the Wireguard mark bit *)
+  Lemma wg_chain_result : forall n rets m p,
+    (forall r, In r rets -> ir_action r = AReturn) ->
+    G cs e n (rets ++ [R [] (ASetMark m)]) p = RReturn p
+    \/ G cs e n (rets ++ [R [] (ASetMark m)]) p = RFall (set_mark p (apply_mark (lnot32 m) m (pk_mark p))).
+  Proof.
+    intros n rets m p. induction rets as [|r rets IH]; intro H.
+    - right. reflexivity.
+    - unfold G in *. cbn [app go]. destruct (matches e p (ir_match r)).
+      + rewrite (H r (or_introl eq_refl)). left. reflexivity.
+      + apply IH. intros x Hx. apply H. right. exact Hx.
+  Qed.
+
+  Lemma set_disjoint_keeps_clear : forall m old, N.land m (c_scr0 c) = 0 -> N.land old (c_scr0 c) = 0 ->
+    N.land (apply_mark (lnot32 m) m old) (c_scr0 c) = 0.
+  Proof.
+    intros m old Hm Ho. apply N.bits_inj. intro i. rewrite N.land_spec, apply_mark_bit, lnot32_bit, !N.bits_0.
+    pose proof (land_eq_bit _ _ _ i Hm) as H1. pose proof (land_eq_bit _ _ _ i Ho) as H2. rewrite N.bits_0 in H1, H2.
+    destruct (N.testbit (c_scr0 c) i), (N.testbit m i), (N.testbit old i), (i <? 32); try reflexivity; discriminate.
+  Qed.
+
+  (* with the Wireguard jump the Wireguard mark must not overlap the scratch bit (Config.validate) *)
+  Theorem fs_in_raw_prerouting : forall n disp,
+    (c_wg_raw c = true -> lookup cs CH_WG_MARK = Some (wg_mark_chain c) /\ N.land (c_wg_mark c) (c_scr0 c) = 0) ->
+    lookup cs CH_FS_IN = Some (failsafe_in TRaw c) ->
+    lookup cs CH_FROM_HEP = Some disp -> hep_disp_ok cs CH_FROM_HEP CH_FS_IN = true ->
+    seg_ok cs e (I_in c e) (S (S (S (S n)))) (raw_prerouting c).
+  Proof.
+    intros n disp Hwg Hfs Hd Hshape p Hp.
+    set (p1 := set_mark p (apply_mark (lnot32 (all_bits c)) 0 (pk_mark p))).
+    assert (Hp1 : I_in c e p1) by (apply (I_in_mark c e Hlocal), Hp).
+    assert (Hs : scr0_clear p1) by (unfold scr0_clear, p1; cbn [pk_mark set_mark]; apply cleared_no_scr0).
+    unfold raw_prerouting.
+    rewrite (G_app_fall _ _ _ _ p1) by reflexivity.
+    destruct (c_wg_raw c) eqn:Ew; cbn [opt_rules].
+    - destruct (Hwg eq_refl) as [Hl Hdisj].
+      set (rets := [R [MInIface false [108; 111] false] AReturn; R [MInIface false (c_wg_if4 c) false] AReturn;
+                    R [MInIface false (c_wg_if6 c) false] AReturn]
+                   ++ map (fun pfx => R [MInIface false pfx true] AReturn) (c_prefixes c)).
+      assert (Hch : wg_mark_chain c = rets ++ [R [] (ASetMark (c_wg_mark c))]).
+      { unfold wg_mark_chain, rets. rewrite app_assoc. reflexivity. }
+      assert (Hrets : forall r, In r rets -> ir_action r = AReturn).
+      { intros r Hr. unfold rets in Hr. apply in_app_or in Hr. destruct Hr as [Hr|Hr].
+        - destruct Hr as [<-|[<-|[<-|[]]]]; reflexivity.
+        - apply in_map_iff in Hr. destruct Hr as [pfx [<- _]]. reflexivity. }
+      unfold G. rewrite go_app. cbn [go R ir_match ir_action matches forallb]. rewrite Hl, run_S, Hch.
+      destruct (wg_chain_result (S (S (S n))) rets (c_wg_mark c) p1 Hrets) as [E|E]; rewrite E.
+      + apply (raw_rest_ok n disp p1 Hfs Hd Hshape Hp1 Hs).
+      + apply (raw_rest_ok n disp _ Hfs Hd Hshape).
+        * apply (I_in_mark c e Hlocal), Hp1.
+        * unfold scr0_clear. cbn [pk_mark set_mark]. apply set_disjoint_keeps_clear; assumption.
+    - rewrite (G_app_fall _ _ _ _ p1) by reflexivity.
+      apply (raw_rest_ok n disp p1 Hfs Hd Hshape Hp1 Hs).
   Qed.
 End Raw.
